@@ -106,6 +106,11 @@ CHECKS = {
             'The order structure (ties, duplicates, missing-entry patterns) is exhaustive, magnitudes are a palette: same shape, all finite, input untouched, infeasible <= worst feasible, '
             'same weak order (default pipeline and its components), no reversal (everything), unwarp(warp(x)) = x where an inverse exists (complete arrays with >= 2 distinct values).',
             'Components other than InfeasibleWarper get complete, non-degenerate arrays (the pipelines handle missing entries and single-value inputs by documented shortcuts); DetectOutliers may mark entries NaN by design.'),
+    'C19': (EX, '5 C19', 'VecOpt.tla: the suggest-evaluate-update loop best := TopK(best + batch) model-checked with TLC for all batch sequences (result = top-count of everything evaluated); '
+            'the real VectorizedOptimizer (eagle and random strategies, use_fori=False) run on piecewise-constant score functions that log every batch; TLC judges each run',
+            'Per run TLC decides: returned count, continuous features in [0,1], categorical indices valid, padded dimensions zero, reward[i] = table score of the cell of feature[i] (lookup done by TLC), '
+            'result = top-count of all evaluated rewards, not worse than the best prior (needle at the prior point), same seed => identical run.',
+            'Sampled configurations (36 of 2 688 in quick); score functions piecewise constant so candidates are discrete; smooth functions and lbfgsb_optimizer out of scope. Known finding F15 listed.'),
 }
 
 PENDING = {
